@@ -133,14 +133,17 @@ fn suffix_weights() -> OpWeights {
 	OpWeights { send: 30, claim: 22, fail: 7, events: 4, forwards: 4, disconnect: 3, setfee: 2, timer: 2, async_toggle: 3, pump: 6, force_close: 4, mine: 12, ..OpWeights::zero() }
 }
 
+/// prefix profile that leaves the forwarding node of a line with monitor updates in flight while HTLCs are
+/// being committed (forwards / failures / channel messages parked in the channel until the update completes)
+fn async_heavy_weights() -> OpWeights {
+	OpWeights { send: 30, claim: 8, fail: 3, deliver: 55, flush: 2, events: 8, forwards: 16, disconnect: 1, reconnect: 4, setfee: 1, async_toggle: 16, complete: 4, pump: 3, ..OpWeights::zero() }
+}
+
 fn twin_strat() -> impl Strategy<Value = TwinCase> {
-	(
-		world_spec(vec![Topology::Pair, Topology::Line3, Topology::Line3]),
-		proptest::collection::vec(op_strategy(weights()), 8..45),
-		any::<u16>(),
-		proptest::collection::vec(op_strategy(suffix_weights()), 3..14),
-	)
-		.prop_map(|(spec, prefix, node, suffix)| TwinCase { spec, prefix, node, suffix })
+	proptest::bool::weighted(0.4).prop_flat_map(|heavy| {
+		let (w, topos, node) = if heavy { (async_heavy_weights(), vec![Topology::Line3], (30_000u16..35_000).boxed()) } else { (weights(), vec![Topology::Pair, Topology::Line3, Topology::Line3], any::<u16>().boxed()) };
+		(world_spec(topos), proptest::collection::vec(op_strategy(w), 8..45), node, proptest::collection::vec(op_strategy(suffix_weights()), 3..14)).prop_map(|(spec, prefix, node, suffix)| TwinCase { spec, prefix, node, suffix })
+	})
 }
 
 fn twin_oracle(c: &TwinCase, ctx: &mut Ctx) -> CaseResult {
